@@ -212,7 +212,8 @@ class BoundCallable:
         arg = next(iter(known.values())) if known else (args[0] if args else None)
 
         funname = getattr(fun, '__name__', None)
-        if funname in vars(builtins):
+        if funname in vars(builtins) and fun is vars(builtins)[funname]:
+            # NOTE: the builtin itself (int, str...), not something named like it
             return ActualArguments(args=[arg])
 
         declared = inspect.signature(fun).parameters
